@@ -218,6 +218,8 @@ func history(r *vh.Run, hidx int) {
 		byD[p.D] = p
 	}
 	rc := &rec{start: time.Now()}
+	fresh := fmt.Sprintf("fresh%d", hidx)
+	freshAck := map[string]string{} // tag -> digest acknowledged in the fresh repository
 	nclients := 4 + rng.Intn(5)
 	nops := 6 + rng.Intn(5)
 	pushedUnder := map[string]map[string]bool{} // tag -> digests ever pushed under it (acknowledged or unknown)
@@ -247,6 +249,21 @@ func history(r *vh.Run, hidx int) {
 			defer wg.Done()
 			crng := rand.New(rand.NewSource(r.Seed*31337 + int64(hidx)*101 + int64(c)))
 			var mine []*vh.Man // artifacts this client pushed
+			// the first request of every client goes to a repository nobody has touched yet: concurrent first use
+			{
+				ft := fmt.Sprintf("f%d", c)
+				fm := vh.MkIndex("fresh", "sha256", vh.MTIndex, nil, "", "", map[string]string{"c": fmt.Sprint(c), "h": fmt.Sprint(hidx)})
+				t0 := rc.now()
+				rs := vh.Do(srv, vh.Req{Method: "PUT", URL: "/v2/" + fresh + "/manifests/" + ft, H: map[string]string{"Content-Type": fm.MT}, Body: fm.Raw})
+				t1 := rc.now()
+				o := outcome(rs.Status, rs.Panic != "")
+				rc.add(c, t0, t1, in{"tag:" + fresh + "/" + ft, "put", fm.D}, o)
+				if o.OK {
+					smu.Lock()
+					freshAck[ft] = fm.D
+					smu.Unlock()
+				}
+			}
 			for n := 0; n < nops; n++ {
 				switch k := crng.Intn(12); {
 				case k < 3: // tag push (pool image or a fresh one)
@@ -319,6 +336,19 @@ func history(r *vh.Run, hidx int) {
 					o := outcome(rs.Status, rs.Panic != "")
 					rc.add(c, t0, t1, in{"ref:" + a.Subject, "rem", a.D}, o)
 					rc.add(c, t0, t1, in{"man:" + a.D, "del", ""}, o)
+				case k < 10 && crng.Intn(3) == 0: // read a tag of the fresh repository (any client's)
+					ft := fmt.Sprintf("f%d", crng.Intn(nclients))
+					t0 := rc.now()
+					rs := vh.Do(srv, vh.Req{Method: "HEAD", URL: "/v2/" + fresh + "/manifests/" + ft, H: map[string]string{"Accept": vh.AcceptAll}})
+					t1 := rc.now()
+					o := out{Val: rs.H.Get("Docker-Content-Digest")}
+					if rs.Status != 200 && rs.Status != 404 {
+						o = out{Unknown: true}
+					}
+					if rs.Status == 404 {
+						o.Val = ""
+					}
+					rc.add(c, t0, t1, in{"tag:" + fresh + "/" + ft, "read", ""}, o)
 				case k < 10: // read a tag
 					t := tags[crng.Intn(len(tags))]
 					t0 := rc.now()
@@ -468,6 +498,13 @@ func history(r *vh.Run, hidx int) {
 			r.Violation("quiescent:artifact-not-listed", fmt.Sprintf("at quiescence the acknowledged, undeleted artifact %s is missing from the referrers of %s (%s)", vh.Short(d), vh.Short(sj), kind), wit("ref:"+sj))
 		}
 		r.Count("quiescent_artifact_checks", 1)
+	}
+	for ft, d := range freshAck {
+		rs := vh.Do(srv, vh.Req{Method: "HEAD", URL: "/v2/" + fresh + "/manifests/" + ft, H: map[string]string{"Accept": vh.AcceptAll}})
+		r.Count("quiescent_fresh_repo_checks", 1)
+		if rs.Status != 200 || rs.H.Get("Docker-Content-Digest") != d {
+			r.Violation("quiescent:first-use-push-lost", fmt.Sprintf("tag %s pushed (201) as a client's first request to the new repository %s answers %d at quiescence (%s)", ft, fresh, rs.Status, kind), wit("tag:"+fresh+"/"+ft))
+		}
 	}
 	for _, t := range tags {
 		rs := vh.Do(srv, vh.Req{Method: "HEAD", URL: "/v2/" + repo + "/manifests/" + t, H: map[string]string{"Accept": vh.AcceptAll}})
